@@ -123,7 +123,12 @@ func CmdPiece(args []string) int {
 					fmt.Fprintln(os.Stderr, "bad number", xs)
 					return 2
 				}
-				ys = append(ys, strconv.FormatUint(f(x), 10))
+				var y uint64
+				if p, _ := catch(func() { y = f(x) }); p {
+					ys = append(ys, "panic") // the function itself panicked (never allowed by the specification)
+					continue
+				}
+				ys = append(ys, strconv.FormatUint(y, 10))
 			}
 		}
 		enc.Encode(map[string]interface{}{"dots": c.Dots, "xs": c.Xs, "panicked": panicked, "ys": ys})
